@@ -16,6 +16,64 @@ NIL_VALUE = -777          # how the executor reports a nil value carried by a ti
 HUGE = [2 ** 62, 2 ** 62 + 1024, 3 * 2 ** 61]     # exactly representable as float64 (JSON), < MaxInt64
 SEC = 1000000000
 T = [["tick"]]
+POLICIES = ["now", "zero", "equal", "back", "jump", "jump", "wall", "epoch", "exact", "mixed", "mixed"]
+MAXOFF = 2 ** 52
+
+
+def stamp_ops(ops, interval, policy, rng):
+    """The VALUE every tick carries (C12-10: the wheel must not look at it): ["tick"] -> ["tick", mode, off]
+    (modes: see harness/c12x stamper).  Stamps that stand still, go backwards, jump 2..1000 intervals, lie at
+    the epoch / in the far future, have no monotonic reading, or are exactly one interval apart."""
+    if policy == "now":
+        return ops
+    cur = [0]
+    const = rng.choice([0, interval, 5 * interval, -3 * interval])
+
+    def one():
+        pol = policy
+        if pol == "mixed":
+            pol = rng.choice(["now", "zero", "equal", "back", "jump", "wall", "epoch", "exact"])
+        if pol == "now":
+            return ["tick"]
+        if pol == "zero":
+            return ["tick", "z", 0]
+        if pol == "equal":
+            return ["tick", "b", const]
+        if pol == "back":
+            cur[0] -= rng.randint(1, 5) * interval
+        elif pol in ("jump", "wall"):
+            cur[0] += rng.choice([1, 2, 2, 3, 5, rng.randint(2, 1000)]) * interval
+        elif pol == "exact":
+            cur[0] += interval
+        elif pol == "epoch":
+            return ["tick", "u", rng.choice([0, 1, -1, 2 ** 62, SEC * 4102444800])]
+        cur[0] = max(-MAXOFF, min(MAXOFF, cur[0]))
+        return ["tick", "w" if pol == "wall" else "b", cur[0]]
+
+    out = []
+    for o in ops:
+        if o and o[0] == "tick" and len(o) == 1:
+            out.append(one())
+        elif o and o[0] == "@" and o[2] == "tick" and len(o) == 3:
+            out.append(o[:2] + one())
+        else:
+            out.append(o)
+    return out
+
+
+def stamped(case, rng, policy=None):
+    """vary the stamps of a case (every family); tickers that stamp themselves keep time.Now()"""
+    policy = policy or rng.choice(POLICIES)
+    kind = case.get("kind", "wheel")
+    if kind == "free":
+        if policy != "now":
+            case["stamps"] = stamp_ops([["tick"]] * 16, case["interval"], policy, rng)
+        return case
+    if kind in ("cache", "cleaner"):
+        case["ops"] = stamp_ops(case["ops"], SEC, policy, rng)
+    elif kind == "wheel" and case.get("ticker", "rv") in ("rv", "buf") and case.get("ticker2", "rv") in ("rv", "buf"):
+        case["ops"] = stamp_ops(case["ops"], case["interval"], policy, rng)
+    return case
 
 
 class C12(Property):
@@ -52,6 +110,41 @@ class C12(Property):
     ]
     assumptions = ["keys are compared with Go == on int64 / string (model: Z)",
                    "the wheel's event loop is sequential (one goroutine): requests are atomic, in the order its select receives them"]
+
+    def regen(self, ctx):
+        """coq/gen/C12Consts.v: the parameters of the wheels built by collection.NewCache and by the cache cleaner and
+        the cleaner's retry schedule, read off the running code (harness/c12x/consts.go), so that GenProofs.v
+        re-proves for today's values that the clients stay inside the property's quantifier."""
+        import json
+        import subprocess
+        ok, res = vlib.go_build("c12consts", overlay=OVERLAY)
+        if not ok:
+            raise RuntimeError("c12consts does not build against the current tree: %s" % res[-1500:])
+        p = subprocess.run([res], stdout=subprocess.PIPE, stderr=subprocess.PIPE, text=True, timeout=300, env=vlib.goenv())
+        if p.returncode != 0:
+            raise RuntimeError("c12consts failed: %s" % (p.stderr or p.stdout)[-1500:])
+        k = json.loads(p.stdout)
+        text = ("(* GENERATED by tools/props/c12.py (harness/cmd/c12consts: values read off the running code of\n"
+                "   core/collection/cache.go and core/stores/cache/cleaner.go) - do not edit *)\n"
+                "From Coq Require Import List ZArith.\nImport ListNotations.\nOpen Scope Z_scope.\n\n"
+                "(* the wheel collection.NewCache builds *)\n"
+                "Definition cache_wheel_slots : Z := %d.\nDefinition cache_wheel_interval_ns : Z := %d.\n"
+                "(* the cache cleaner's wheel, and the delays of the timers it sets for a task that keeps failing *)\n"
+                "Definition cleaner_wheel_slots : Z := %d.\nDefinition cleaner_wheel_interval_ns : Z := %d.\n"
+                "Definition cleaner_retry_schedule_ns : list Z := %s.\n"
+                % (k["cache_slots"], k["cache_interval"], k["cleaner_slots"], k["cleaner_interval"],
+                   clist([cz(d) for d in k["cleaner_schedule"]])))
+        path = os.path.join(vlib.COQ, "gen", "C12Consts.v")
+        old = open(path).read() if os.path.exists(path) else None
+        if old != text:
+            tmp = path + ".tmp%d" % os.getpid()
+            with open(tmp, "w") as f:
+                f.write(text)
+            os.replace(tmp, path)
+        self.consts = k
+        return ["C12Consts.v %s: cache wheel %d x %d ns, cleaner wheel %d x %d ns, retry schedule %s"
+                % ("rewritten" if old != text else "unchanged", k["cache_slots"], k["cache_interval"], k["cleaner_slots"],
+                   k["cleaner_interval"], k["cleaner_schedule"])]
 
     def prepare(self, ctx):
         ok, res = vlib.go_build("c12", overlay=OVERLAY)
@@ -118,6 +211,36 @@ class C12(Property):
         # seed C06-9 through the wheel: two clean tasks of different stores about the same cache key, the first still pending
         cs.append({"kind": "cleaner", "ops": [["add", 0, 2, 7], ["add", 1, 1, 7]] + T * 8})
         cs.append({"kind": "cleaner", "ops": [["add", 0, 3, 7], ["tick"], ["tick"], ["add", 1, 0, 7]] + T * 70})
+        # seed C12-10 ("make up for dropped ticks"): the VALUE a tick carries is irrelevant.  A timer set after a
+        # stall, then ONE tick stamped five intervals after the wheel was built / after the previous tick; stamps
+        # that stand still, go backwards, the zero time, wall-clock-only times, the epoch; through the plain
+        # wheel (rendezvous and buffered ticker), a gated wheel, the cache and the cleaner
+        jump = lambda i, ks: [["tick", "b", k * i] for k in ks]
+        cs += [
+            w(4, SEC, [["set", 1, 5, 3 * SEC]] + jump(SEC, [5]) + [["set", 2, 6, 3 * SEC]] + jump(SEC, [10, 11, 12])),
+            w(5, 1000000, [["set", 1, 5, 4000000], ["set", 2, 6, 12000000]] + jump(1000000, [1000, 1000, 3000, 2000, 2001])
+              + [["move", 2, 7000000]] + jump(1000000, [900000, 0, -5, 1000000]) + T * 4, "buf"),
+            w(3, 60 * SEC, [["set", 1, 5, 120 * SEC], ["tick", "z", 0], ["tick", "u", 0], ["tick", "u", 2 ** 62],
+                            ["set", 2, 6, 180 * SEC], ["tick", "w", 3600 * SEC], ["tick", "w", 7200 * SEC], ["tick", "z", 0],
+                            ["drain"]]),
+            dict(w(4, SEC, [["set", 1, 900, SEC], ["set", 2, 2, SEC], ["set", 3, 3, 4 * SEC]] + jump(SEC, [7])
+                   + [["set", 4, 4, 2 * SEC]] + jump(SEC, [14]) + [["release", 900]] + jump(SEC, [15, 30])), hold=[900]),
+            c(0, [["set", 1, 10, s25]] + jump(SEC, [10]) + [["set", 2, 20, s35]] + jump(SEC, [20, 21, 40, 41])),
+            c(2, [["set", 1, 10, 5 * SEC + SEC // 2], ["tick", "z", 0], ["set", 2, 20, s35], ["tick", "w", 600 * SEC],
+                  ["get", 1], ["tick", "w", 1200 * SEC], ["tick", "b", -SEC], ["tick", "u", 0], ["tick", "b", 5000 * SEC]]),
+            {"kind": "cleaner", "ops": [["add", 0, 2]] + jump(SEC, [30]) + [["add", 1, 1]] + jump(SEC, [60, 90, 91, 1000, 1001, 1002, 5000])},
+        ]
+        # core/timex/ticker.go itself: the FakeTicker's channel (one tick buffered, blocked Ticks, receivers,
+        # Stop = close: blocked senders panic, receivers get the zero value), Done/Wait, a real ticker
+        tk = lambda ops: {"kind": "ticker", "ops": [[o] for o in ops]}
+        cs += [
+            tk(["tick", "tick", "recv", "recv", "recv", "tick", "done", "wait", "wait", "done", "done", "wait", "stop",
+                "recv", "recv", "tick", "stop"]),
+            tk(["recv", "recv", "stop"]),
+            tk(["tick", "tick", "tick", "stop", "recv", "recv"]),
+            tk(["tick", "recv"] * 6 + ["stop"]),
+            {"kind": "ticker", "real_us": 500, "ops": []},
+        ]
         return cs
 
     def gen(self, rng, n, tier):
@@ -139,7 +262,32 @@ class C12(Property):
             cases.append(self._gen_two_caches(rng) if j % 8 == 7 else self._gen_cache(rng))
         for _ in range(n_clean):
             cases.append(self._gen_cleaner(rng))
+        cases = [stamped(c, rng) for c in cases]
+        for _ in range(max(3, n // 60)):
+            cases.append(self._gen_ticker(rng))
+        cases.append({"kind": "ticker", "real_us": rng.choice([200, 1000, 3000]), "ops": []})
         return cases
+
+    def _gen_ticker(self, rng):
+        """operations on one timex.NewFakeTicker, each on its own goroutine (Wait costs 150 ms when it times out)"""
+        ops = []
+        waits = 0
+        for _ in range(rng.randint(4, 30)):
+            r = rng.random()
+            if r < 0.38:
+                ops.append(["tick"])
+            elif r < 0.76:
+                ops.append(["recv"])
+            elif r < 0.84:
+                ops.append(["done"])
+            elif r < 0.90 and waits < 3:
+                ops.append(["wait"])
+                waits += 1
+            elif r < 0.93:
+                ops.append(["stop"])
+            else:
+                ops.append(["tick"])
+        return {"kind": "ticker", "ops": ops}
 
     def _gen_wheel(self, rng):
         ns = rng.choice([1, 2, 3, 3, 4, 5, 6, 8, 10, 12])
@@ -205,7 +353,7 @@ class C12(Property):
                 ops.append(["remove", k])
             else:
                 ops.append(["drain"])
-        return {"kind": "wheel", "n": ns, "interval": interval, "ticker": rng.choice(["rv", "rv", "fake"]),
+        return {"kind": "wheel", "n": ns, "interval": interval, "ticker": rng.choice(["rv", "rv", "fake", "buf", "real"]),
                 "skeys": rng.random() < 0.3, "ops": ops}
 
     def _gen_gated(self, rng, react=None):
@@ -271,7 +419,7 @@ class C12(Property):
         rel = list(hold)
         rng.shuffle(rel)
         ops += [["release", v] for v in rel]
-        c = {"kind": "wheel", "n": ns, "interval": interval, "ticker": rng.choice(["rv", "fake"]), "hold": hold, "ops": ops}
+        c = {"kind": "wheel", "n": ns, "interval": interval, "ticker": rng.choice(["rv", "rv", "fake", "buf"]), "hold": hold, "ops": ops}
         if rc:
             c["react"] = rc
         return c
@@ -409,21 +557,66 @@ class C12(Property):
     def execute(self, cases, ctx):
         return self._execute(self.bin, cases)
 
-    def _execute(self, binpath, cases, env=None):
-        # one executor process per 400 cases: every collection.Cache leaves a statistics goroutine behind,
-        # and the quiescence detection looks at all goroutines
+    def _run_chunks(self, binpath, cases, env=None):
+        """Raw executor results, one per case.  One executor process per 400 cases (every collection.Cache
+        leaves a statistics goroutine behind, and the quiescence detection looks at all goroutines).  The
+        executor writes its results unbuffered and exits after a case it could not complete (`stuck`: a call
+        into the wheel did not return, callbacks never came to rest) or crashes on it: that case is run once
+        more, alone, in a fresh process; if it fails again it is reported as a history the implementation did
+        not complete (CStuck), and the run goes on with the cases after it."""
         res = []
-        for i in range(0, len(cases), 400):
-            chunk = cases[i:i + 400]
+        pending = list(cases)
+        stuck = 0
+        while pending:
+            if stuck >= 2:      # two confirmed already: do not spend minutes per case on a tree that hangs
+                res += [{"skipped": True} for _ in pending]
+                break
+            chunk, pending = pending[:400], pending[400:]
             rc, out, r = vlib.go_run(binpath, chunk, tag="c12", timeout=900, env=env)
-            if rc != 0 or len(r) != len(chunk):
+            if rc == 0 and len(r) == len(chunk):
+                res += r
+                continue
+            if "DATA RACE" in out:
                 raise ExecError("c12 executor rc=%s: %s" % (rc, out[-3000:]))
-            res += r
+            k = len(r)
+            if k and r[-1].get("stuck"):
+                k -= 1
+            if k >= len(chunk):
+                raise ExecError("c12 executor rc=%s: %s" % (rc, out[-3000:]))
+            res += r[:k]
+            culprit = chunk[k]
+            rc2, out2, r2 = vlib.go_run(binpath, [culprit], tag="c12", timeout=400, env=env)
+            if rc2 == 0 and len(r2) == 1 and not r2[0].get("stuck"):
+                res.append(r2[0])           # completed when run alone
+            else:
+                stuck += 1
+                one = r2[0] if r2 else (r[k] if len(r) > k else {})
+                one = dict(one)
+                one["stuck"] = one.get("stuck") or ("executor rc=%s: %s" % (rc2, out2[-600:]))
+                res.append(one)
+            pending = chunk[k + 1:] + pending
+        return res
+
+    def _execute(self, binpath, cases, env=None):
+        res = self._run_chunks(binpath, cases, env)
         obs = []
         for c, r in zip(cases, res):
             if r.get("err"):
                 raise ExecError("c12 executor: case %s: %s" % (r.get("id"), r["err"]))
             kind = c.get("kind", "wheel")
+            if r.get("skipped"):
+                obs.append({"obs": [], "skipped": True})
+                continue
+            if r.get("stuck"):
+                obs.append({"obs": r.get("obs") or [], "stuck": r["stuck"], "n": r.get("n") or 1,
+                            "interval": r.get("interval") or 1, "accepted": bool(r.get("accepted"))})
+                continue
+            if kind == "ticker":
+                steps = r.get("obs") or []
+                if len(steps) != (1 if c.get("real_us") else len(c["ops"])):
+                    raise ExecError("c12 executor: ticker case %s: %d observations" % (r.get("id"), len(steps)))
+                obs.append({"obs": steps})
+                continue
             if kind == "free":
                 fr = r.get("free") or {}
                 th = fr.get("threads") or []
@@ -507,9 +700,45 @@ class C12(Property):
             return "(RetTake %s %s)" % ("None" if ret[0] is None else "(Some %s)" % cz(ret[0]), cbool(ret[1]))
         return "RetNone"
 
+    FOUT = {0: "FReturned", 3: "FPanicked", 4: "FClosed", 5: "FNil", 6: "FTimeout"}
+
+    def _sop(self, o):
+        if o[0] == "tick" and len(o) >= 3:
+            return "STick %s" % cz(0 if o[1] == "z" else o[2])
+        return "SCall (%s)" % self._aop(o)
+
+    def _ticker_term(self, case, steps):
+        if case.get("real_us"):
+            d = (steps[0].get("d") if steps else None) or [{"op": 0, "out": 0}, {"op": 99, "out": 1}]
+            return "CRealTicker %s %s %s %s" % (cz(d[0]["op"]), cbool(d[0]["out"] == 1), cz(d[1]["op"]), cbool(d[1]["out"] == 1))
+        fops = {"tick": "TkTick", "recv": "TkRecv", "stop": "TkStop", "done": "TkDone", "wait": "TkWait"}
+        is_tick = [o[0] == "tick" for o in case["ops"]]
+
+        def fout(x):
+            if x["out"] >= 100:
+                return "FGot %s" % cz(x["out"] - 100)
+            if x["out"] == 99:
+                return "FGot (-1)"
+            if x["out"] == 0 and is_tick[x["op"]]:
+                return "FSent"
+            return self.FOUT[x["out"]]
+        obt = clist([clist(["(%s, %s)" % (cz(x["op"]), fout(x)) for x in (st.get("d") or [])]) for st in steps])
+        return "CTicker %s %s" % (clist([fops[o[0]] for o in case["ops"]]), obt)
+
     def coq_case(self, case, obs):
+        if obs.get("skipped"):      # not executed (the run already has two histories that were not completed)
+            return "CNew 1 1 true true ROk RErrClosed"
+        if obs.get("stuck"):
+            return "CStuck (%s)" % self._case_term(case, obs)
+        return self._case_term(case, obs)
+
+    def _case_term(self, case, obs):
         kind = case.get("kind", "wheel")
         steps = obs["obs"]
+        if kind == "ticker":
+            return self._ticker_term(case, steps)
+        if kind == "free" and "free" not in obs:
+            return "CFree %s %s [] []" % (cz(case["n"]), cz(case["interval"]))
         if kind == "free":
             evs = []
             for script, log in zip(case["threads"], obs["free"]["threads"]):
@@ -548,6 +777,9 @@ class C12(Property):
                 return "CReact %s %s %s %s %s %s" % (cz(case["n"]), cz(case["interval"]),
                                                      clist([cz(v) for v in case.get("hold") or []]), rc, opt, obt)
             gated = bool(case.get("hold")) or any(o[0] == "release" for o in case["ops"])
+            if not gated and any(o[0] == "tick" and len(o) >= 3 for o in case["ops"]):
+                return "CStamped %s %s %s %s" % (cz(case["n"]), cz(case["interval"]), clist([self._sop(o) for o in case["ops"]]),
+                                                 clist(["(%s, %s)" % (self._fired(st["f"]), RES[st["r"]]) for st in steps]))
             return self._wheel_term(case["n"], case["interval"], case.get("hold") or [], case["ops"],
                                     [(st["f"], st["r"]) for st in steps], gated)
         if kind == "new":
@@ -587,9 +819,15 @@ class C12(Property):
     # ------------------------------------------------------------------ evidence
     def nontrivial(self, case, obs):
         kind = case.get("kind", "wheel")
+        if obs.get("skipped") or obs.get("stuck"):
+            return False
         fired = any(s.get("f") for s in obs["obs"])
         if kind == "new":
             return True
+        if kind == "ticker":
+            # a tick was received, and some operation had to wait for another one
+            return bool(case.get("real_us")) or (any(x["out"] >= 100 for s in obs["obs"] for x in (s.get("d") or []))
+                                                  and any(not s.get("d") for s in obs["obs"]))
         if kind == "free":
             # some call overlapped a tick or another call, and something fired
             iv = [(o["s"], o["e"]) for th in obs["free"]["threads"] for o in th] + \
@@ -620,7 +858,22 @@ class C12(Property):
 
     def features(self, case, obs):
         kind = case.get("kind", "wheel")
+        if obs.get("skipped"):
+            return ["not_executed"]
+        if obs.get("stuck"):
+            return ["kind=" + kind, "not_completed"]
         fs = ["kind=" + kind, "ops<=%d" % (10 * (1 + len(case.get("ops", [])) // 10))]
+        modes = set((o[3] if o[0] == "@" else o[1]) for o in case.get("ops", [])
+                    if (o[0] == "tick" and len(o) >= 3) or (o[0] == "@" and o[2] == "tick" and len(o) >= 5))
+        fs += ["stamp=" + {"z": "zero", "b": "chosen", "w": "wall_only", "u": "absolute"}[m] for m in sorted(modes)]
+        if kind == "ticker":
+            fs.append("real_ticker" if case.get("real_us") else "fake_ticker")
+            outs = set(x["out"] for s in obs["obs"] for x in (s.get("d") or []))
+            if not case.get("real_us"):
+                fs += ["ticker_" + {3: "panic", 4: "closed_receive", 5: "wait_nil", 6: "wait_timeout"}[o] for o in sorted(outs) if o in (3, 4, 5, 6)]
+                if any(not s.get("d") for s in obs["obs"]):
+                    fs.append("ticker_blocked_operation")
+            return fs
         if kind == "wheel":
             fs.append("n=%d" % case["n"])
             fs.append("ticker=" + case.get("ticker", "rv"))
@@ -691,6 +944,12 @@ class C12(Property):
         if kind == "free":
             return ("concurrent SetTimer/MoveTimer/RemoveTimer/ticks: the callbacks observed are not those of any order of "
                     "the calls that is consistent with their real-time order")
+        if obs.get("stuck"):
+            return ("the history was not completed: %s - a wheel that no longer takes ticks or calls cannot fire its timers "
+                    "at their due ticks" % obs["stuck"][:300])
+        if kind == "ticker":
+            return ("timex ticker: a tick was lost, delivered twice, out of order or invented, or an operation of the "
+                    "ticker completed differently from its channel semantics")
         if kind == "new":
             return "NewTimingWheel accepted a configuration outside numSlots >= 1, interval >= 1, execute != nil (or rejected one inside)"
         return ("a timer fired at a tick other than its due tick, twice, not at all, a removed/drained timer fired, "
